@@ -145,6 +145,9 @@ def run(ctx: Context) -> None:
     ctx.rule('R01.6', "each grid kind is bound to its own dimensions", floor=4)
     ctx.rule('R01.7', "calls between repository functions in the anchored files pass positional arguments to the parameters of the same name (no swapped latitude/longitude, kind/index ...)", floor=20)
     ctx.rule('R01.8', "the dimensions of each mesh grid kind are discovered from the mesh attributes with the documented precedence (shared with C10 R10.5)", floor=5)
+    ctx.rule('R01.9', "a hand built ArakawaC pairs every grid kind with the coordinate names given for that kind", floor=1)
+    from . import infra as _infra
+    _infra.arakawa_names(ctx, 'R01.9')
     ctx.assume("numpy.ravel_multi_index / unravel_index with equal shape, order='C', mode='raise' are mutually inverse on [0, prod(shape)) and raise outside it")
     ctx.assume("xarray Dataset.sizes reports the dimension lengths of the file")
 
